@@ -2,6 +2,6 @@ SPECIFICATION Spec
 CONSTANTS
   Vary = {"sel", "sh", "shk", "mainpos", "keep"}
   Fns = {"Println"}
-  Shs = {"-", "toUpper", "echo"}
+  Shs = {"-", "toUpper"}
 INVARIANTS TypeOK Confluent ImportSound Export
 PROPERTIES Stable Terminates
